@@ -92,7 +92,7 @@ def construct(env, t, v, cfg, with_neighbours=True, tag=""):
     if cfg.get("form") == "omit" and t[0] == "struct":
         # static scalar fields left out of the constructor call take their default (zero)
         vin = {fn: vin[fn] for fn, ft in t[2] if ft[0] != "scalar"}
-        B.exp = {fn: (V.expected(ft, 0) if ft[0] == "scalar" else B.exp[fn]) for fn, ft in t[2]}
+        B.exp = {fn: (V.expected(ft, tg.DEFAULTS.get((t[1], fn), 0)) if ft[0] == "scalar" else B.exp[fn]) for fn, ft in t[2]}
     # an explicit region is reserved while the free list is still pristine: it is then disjoint
     # from everything allocated later (the neighbours, reference targets)
     kw = place_kwargs(env, cfg, B.buf, planned_size(t, vin) + 64, tag)
@@ -1353,6 +1353,28 @@ def disjoint_ok(env, a, b):
     return sor(env, sle(env, oa + sa, ob), sle(env, ob + sb, oa))
 
 
+def slt(env, a, b):
+    if is_symbolic(a) or is_symbolic(b):
+        return symx.mkb(T(a) < T(b))
+    return a < b
+
+
+def allocator_state_ok(env, buf, live, what):
+    """representation invariant of the free list (the one C04 proves inductive) on a restored buffer, and no live
+    object inside a free chunk -- decided by the solver on the restored (symbolic) chunk bounds"""
+    ok = True
+    prev_end = None
+    for k, c in enumerate(buf.chunks):
+        inv = sand(env, sle(env, 0, c.start), sand(env, sle(env, c.start, c.end), sle(env, c.end, buf.capacity)))
+        if prev_end is not None:
+            inv = sand(env, inv, slt(env, prev_end, c.start))
+        ok = env.check(inv, f"{what} the restored free list satisfies the allocator's invariant (sorted, disjoint, non-touching chunks inside the capacity)") and ok
+        for off, size in live:
+            ok = env.check(sor(env, sle(env, off + size, c.start), sle(env, c.end, off)), f"{what} no restored object lies in memory the restored free list offers") and ok
+        prev_end = c.end
+    return ok
+
+
 def sc_c20(env, t, v, cfg):
     """pickle round trip of a group of objects sharing one buffer (the object, a second object of the same type,
     and an Int64 array), at any placement / after growth"""
@@ -1413,7 +1435,8 @@ def sc_c20(env, t, v, cfg):
     read_ok(env, t, c1, exp1, "C20 the unpickled object reads back what was written through it")
     read_ok(env, t, obj, B.exp, "C20 the original is unaffected by writes through the unpickled object")
     read_ok(env, t, c2, exp2, "C20 the second unpickled object is unaffected by writes through the first")
-    # the restored buffer is a working allocator: a new object does not land on the restored ones
+    # the restored buffer is a working allocator: valid free list, and a new object does not land on the restored ones
+    allocator_state_ok(env, nb, ([_extent(t, c1), _extent(t, c2)] if t[0] != "uref" else []) + [(cn._offset, cn._size)], "C20")
     m = env.mark()
     try:
         extra = NEIGHBOUR(NB_R, _buffer=nb)
